@@ -88,9 +88,10 @@ class Scripted:
         self.calls.append(1)
         r = self.one(actions, len(self.calls) - 1)
         self.offered = actions
+        payload = {} if self.kw == 3 else {"k": ("kw", 0)}      # kw == 3: the learner uses the kwargs form but has nothing to pass on this call
         if not self.kw: out = r
-        elif self.fmt == "AP": out = (r[0], r[1], {"k": ("kw", 0)})
-        else: out = (r, {"k": ("kw", 0)})
+        elif self.fmt == "AP": out = (r[0], r[1], payload)
+        else: out = (r, payload)
         self.last_pred = out
         return out
     def learn(self, context, action, reward, probability, **kwargs):
@@ -165,7 +166,7 @@ def run_point(ctx, kind, n, acts, fmt, kw, batch, order, model_reqs):
             ea, ep = rng.choicew(acts, it[1])
         else:
             ea, ep = expect_one(it, acts, None)
-        ekw = ({"k": ("kw", b if batch is not None else 0)} if kw else {})
+        ekw = ({"k": ("kw", b if batch is not None else 0)} if kw and kw != 3 else {})
         if kw == 2: ekw["j"] = ("j", 2 * b)
         member = any(a is x or (type(a) == type(x) and a == x) for x in acts) or any(a == x for x in acts)
         if not member:
@@ -178,7 +179,7 @@ def run_point(ctx, kind, n, acts, fmt, kw, batch, order, model_reqs):
         else: safe.learn(Batch.List([None] * B), Batch.List([g[0] for g in got]), Batch.List([1.0] * B), Batch.List([g[1] for g in got]), **{k: Batch.List([g[2][k] for g in got]) for k in got[0][2]})
     except Exception as e:
         ctx.fail(["learn", "raises", errname(e), fmt], "learn raised %s: %s on %s" % (errname(e), str(e)[:90], case), case); return
-    if kw and lrn.learned:
+    if kw and kw != 3 and lrn.learned:
         rec = lrn.learned[0][2]
         if "k" not in rec: ctx.fail(["learn", "kwargs-lost"], "learn received kwargs %r on %s" % (rec, case), case); return
         if kw == 2 and batch is not None:
@@ -195,6 +196,7 @@ def run(ctx):
     pts = []
     for (kind, n), acts in sets.items():
         for fmt in FORMATS:
+            pts.append((kind, n, acts, fmt, 3, None, "not"))      # an empty kwargs mapping on an un-batched call
             for kw in (False, True):
                 pts.append((kind, n, acts, fmt, kw, None, "not"))
                 for batch in (1, 2, n, n + 1):
